@@ -24,6 +24,7 @@ import (
 	"github.com/inbucket/inbucket/v3/pkg/server/pop3"
 	"github.com/inbucket/inbucket/v3/pkg/server/smtp"
 	"github.com/inbucket/inbucket/v3/pkg/server/web"
+	"github.com/inbucket/inbucket/v3/pkg/storage"
 	"github.com/inbucket/inbucket/v3/pkg/stringutil"
 	"github.com/inbucket/inbucket/v3/pkg/webui"
 	"github.com/rs/zerolog"
@@ -40,8 +41,35 @@ type Spec struct {
 	History  int    // monitor history length (0 = 30)
 	NoHub    bool
 	POP3TLS  bool // POP3 offers STLS (self-signed test certificate), not forced
+	// AddFault makes the store refuse deliveries (an environment fault: the disk, the descriptor
+	// table, the network file system says no).  Only the message manager sees it: POP3, REST and
+	// the oracle read the real store.
+	AddFault *AddFault
 	// PreLua / PostLua register Go listeners before / after the Lua host registers its own.
 	PreLua, PostLua func(*extension.Host) `json:"-"`
+}
+
+// AddFault: the At-th AddMessage call of the system (1-based) fails before anything is written;
+// with Persistent every later one fails too.  Hits counts the refused calls.
+type AddFault struct {
+	At         int
+	Persistent bool
+	calls      atomic.Int64
+	Hits       atomic.Int64 `json:"-"`
+}
+
+type faultStore struct {
+	storage.Store
+	f *AddFault
+}
+
+func (fs *faultStore) AddMessage(m storage.Message) (string, error) {
+	n := int(fs.f.calls.Add(1))
+	if n == fs.f.At || (fs.f.Persistent && n > fs.f.At) {
+		fs.f.Hits.Add(1)
+		return "", errors.New("verif: injected store failure (too many open files)")
+	}
+	return fs.Store.AddMessage(m)
 }
 
 // DefaultSMTP is a permissive SMTP configuration.
@@ -109,7 +137,11 @@ func New(spec Spec) *Sys {
 	if !spec.NoHub {
 		s.Hub = msghub.New(conf.Web.MonitorHistory, s.Ext)
 	}
-	s.Mgr = &message.StoreManager{AddrPolicy: s.Policy, Store: s.StoreH.Store, ExtHost: s.Ext}
+	var mgrStore storage.Store = s.StoreH.Store
+	if spec.AddFault != nil {
+		mgrStore = &faultStore{Store: mgrStore, f: spec.AddFault}
+	}
+	s.Mgr = &message.StoreManager{AddrPolicy: s.Policy, Store: mgrStore, ExtHost: s.Ext}
 	if spec.Web {
 		web.VerifResetRouter()
 		prefix := stringutil.MakePathPrefixer(conf.Web.BasePath)
